@@ -1192,17 +1192,20 @@ impl NodeId {
     pub fn remove_subtree<T>(self, arena: &mut Arena<T>) {
         self.detach(arena);
 
-        // use a preorder traversal to remove node.
+        // Remove the nodes leaf by leaf (post-order): a node is unlinked from
+        // its parent before it is freed, so that no removed node keeps links
+        // and no link ever leads to a removed node.
         let mut cursor = Some(self);
         while let Some(id) = cursor {
-            arena.free_node(id);
             let node = &arena[id];
-            cursor = node.first_child.or(node.next_sibling).or_else(|| {
-                id.ancestors(arena) // traverse ancestors upwards
-                    .skip(1) // skip the starting node itself
-                    .find(|n| arena[*n].next_sibling.is_some()) // first ancestor with a sibling
-                    .and_then(|n| arena[n].next_sibling) // the sibling is the new cursor
-            });
+            cursor = if let Some(first_child) = node.first_child {
+                Some(first_child)
+            } else {
+                let parent = node.parent;
+                id.detach(arena);
+                arena.free_node(id);
+                parent
+            };
         }
     }
 
